@@ -67,6 +67,7 @@ package dns
 //@   requires 0 <= off
 //@   ensures ok:   err == nil ==> off <= off1 && off1 <= len(truncmsg) && len(truncmsg) <= len(msg)
 //@   ensures rdl:  err == nil && off < len(msg) ==> len(truncmsg) == off1 + rr.Rdlength
+//@   ensures adv:  err == nil && off < len(msg) ==> off + 11 <= off1
 //@   ensures fail: err != nil ==> len(truncmsg) == len(msg)
 
 //@ func escapeByte [C02]
@@ -238,6 +239,7 @@ package dns
 //@   requires 0 <= off
 //@   ensures some: err == nil ==> rr != nil
 //@   ensures ok:   err == nil ==> off <= off1 && off1 <= len(msg)
+//@   ensures adv:  err == nil && off < len(msg) ==> off + 11 <= off1
 
 //@ func unpackRRslice [C01 C02]
 //@   requires 0 <= off
